@@ -3,6 +3,7 @@ import Driver.Sinks
 import Driver.Global
 import Driver.Histogram
 import Driver.MetricsRs
+import Driver.Units
 /-!
 `driver <engine>`: reads one request per line on stdin, prints one reply per line.
 Every engine is a pure function `String → String` of the request line (stateful models receive the
@@ -14,7 +15,8 @@ def engines : List (String × (String → String)) := [
   ("sinks", Driver.Sinks.handle),
   ("global", Driver.Global.handle),
   ("histogram", Driver.Histogram.handle),
-  ("metricsrs", Driver.MetricsRs.handle)
+  ("metricsrs", Driver.MetricsRs.handle),
+  ("units", Driver.Units.handle)
 ]
 
 partial def loop (h : IO.FS.Stream) (out : IO.FS.Stream) (f : String → String) : IO Unit := do
